@@ -4,6 +4,9 @@ import json
 SC="stateless model checking of the implementation under a controlled scheduler (iterative preemption/delay bounding)"
 ENUM="bounded-exhaustive enumeration over explicit boundary alphabets, every case executed on the real code and compared with a reference model written from the property statement"
 CHECKS = {
+ "C18": dict(engine="enum", technique=ENUM+" over JSON configurations, with crash-isolated smoke runs of accepted ones",
+   text="JSON configurations built from per-field alphabets (omitted / empty / documented default / other valid / boundary / invalid): the full server x client protocol matrix, all single and pair (thorough: triple) field variations of a rich base document, full products within each section; each is loaded by the real Config.Manager and compared with an independent validity predicate; omitted = empty = documented default is compared on effective values; accepted configurations are started on loopback in worker subprocesses and driven with a fixed smoke script",
+   note="only a worker crash is a verdict in the smoke part; seven accepted-then-crashing absurd numeric values (2^62 sizes, 2^40 MTU) are listed as known findings"),
  "C19": dict(engine="vsched", technique=SC+" + exhaustive probe-outcome histories on the virtual clock",
    text="round-robin under 2-4 concurrent selecting threads (all interleavings at atomic-operation granularity), random with every IntN answer, and availability / latency / min-max-latency groups built through the real AddClientGroup with their real probe loops, tickers and workers on the virtual clock: an optional head round, k filler rounds around the 32/64-slot retention, then all outcome suffixes of a stated depth, asked mid-round and after each round",
    note="TCP groups run the real probe over an in-memory connection; UDP groups swap only the probe function; where the cycle starts is not demanded"),
